@@ -2,5 +2,30 @@
 #![allow(unused_imports, dead_code)]
 use super::*;
 
+
+// ---- probe: is the live range the rollback layer publishes always re-openable? -------------------
+/// The rollback layer publishes (start BEFORE pruning, end) in the meta page and prunes to start + 1
+/// after the meta page is durable.  With records big enough to fill a segment each, that pruning
+/// deletes the segment holding the published start.  Can the log be re-opened with the published
+/// range afterwards?
+#[cfg(test)]
+#[test]
+fn native_probe_published_start_survives_pruning() {
+    let dir = tempfile::tempdir().unwrap();
+    let dir_fd = Arc::new(std::fs::File::open(dir.path()).unwrap());
+    let seg_size = 4096u64;
+    let mut log = open(dir.path().to_path_buf(), dir_fd.clone(), "rollback".to_string(), seg_size, RecordId::nil(), RecordId::nil(), |_, _| Ok(())).unwrap();
+    for i in 0..4u8 {
+        log.append(&vec![i; 3000]).unwrap();
+    }
+    let (start, end) = log.live_range();
+    // meta page now says (start, end); post-meta pruning of the oldest delta:
+    log.prune_oldest(start.next()).unwrap();
+    drop(log);
+    let mut seen = Vec::new();
+    let r = open(dir.path().to_path_buf(), dir_fd, "rollback".to_string(), seg_size, start, end, |id, _| { seen.push(id); Ok(()) });
+    assert!(r.is_ok(), "the log cannot be re-opened with the published live range ({}, {}): {:?}; records seen {:?}", start, end, r.err(), seen);
+}
+
 #[cfg(test)]
 include!("/verif/.build/playback/seglog_mod.inc");
